@@ -933,6 +933,12 @@ class HttpResponseParser(HttpParser[RawResponseMessage]):
                 # https://www.rfc-editor.org/rfc/rfc9112.html#section-6.3-2.8
                 close = True
 
+        if version_o < HttpVersion11 and hdrs.TRANSFER_ENCODING in headers:
+            # https://www.rfc-editor.org/rfc/rfc9112#section-6.1-16
+            # Same as for requests: an HTTP/1.0 hop may have framed the
+            # message differently, so nothing may follow it.
+            close = True
+
         return RawResponseMessage(
             version_o,
             status_i,
